@@ -261,6 +261,11 @@ fn worker_loop() -> i32 {
                 format!("digest {:016x}", h.finish())
             }
             ["ans", flag] => { ctx.save_previous_result = *flag == "on"; "ok".into() }
+            // the caller sets the clock (seconds since the epoch), as a front end with its own idea of time would
+            ["settime", secs] => match secs.parse::<i64>().ok().and_then(|s| chrono::DateTime::<chrono::Utc>::from_timestamp(s, 0)) {
+                Some(t) => { ctx.set_time(t.with_timezone(&chrono::Local)); "ok".into() }
+                None => "bad-op".into(),
+            },
             _ => "bad-op".into(),
         };
         writeln!(out, "{}", ans).unwrap();
